@@ -26,6 +26,7 @@ import CpModel.UnreprIO
     cfgset <global conf before> <key> <val>               → the same for `cherrypy.config[key] = val`
     fc <sections> <path> <key> <default: - | val>        → `V=<val>` | `V=-`
     build <ast>                                            → `ok <val>` | `err <class>`      (reprconf._Builder)
+    flags                                                  → the generated tables compiled into this binary
     ini <I|L> <DEFAULT options> <sections>                 → `ok <section>|<option>~<text>,…;…` | `err <kind>`
           (Parser.as_dict before unrepr; I = identity optionxform (Parser), L = lower-casing (stock);
            options = `E` | <name>~<raw>,…   sections = `-` | <name>|<options>;…)
@@ -91,8 +92,20 @@ def parseIniSection (s : String) : Option (List Char × ConfigIni.Opts) :=
 def showIniErr : ConfigIni.IniErr → String
   | .syntaxErr => "syntax" | .missingOption => "missing" | .depth => "depth" | .duplicateOption => "duplicate"
 
+/-- the generated tables this binary was compiled with (the harness checks them against the live tree before
+    it trusts the binary: another check against a different tree may have rebuilt it in the meantime) -/
+def flagsLine : String :=
+  let b (x : Bool) : String := if x then "1" else "0"
+  s!"M={b Gen.C08.mergedArgsCopies} S={b Gen.C08.setConfCopies} X={b Gen.C08.starredSpreads} " ++
+  s!"B={",".intercalate Gen.C08.builderNodes} R={",".intercalate Gen.C08.requestNamespaces} " ++
+  s!"C={",".intercalate Gen.C08.configNamespaces} A={",".intercalate Gen.C08.appNamespaces} " ++
+  s!"H={",".intercalate Gen.C08.hookPoints} " ++
+  s!"E={",".intercalate (Gen.C08.environments.map fun (n, c) => String.ofList n ++ ":" ++ toString c.length)} " ++
+  s!"D={Proto.text dispatchName} T={Gen.C02.translateTable.length}"
+
 def step (line : String) : String :=
   match Proto.fields line with
+  | ["flags"] => flagsLine
   | ["ini", xf, dflt, secs] =>
     match parseOpts dflt, parseList ";" parseIniSection secs with
     | some d, some ss =>
